@@ -1290,7 +1290,7 @@ impl<'a, I, A> Iterator for NamedStrategyIter<'a, I, A> {
     }
 
     fn size_hint(&self) -> (usize, Option<usize>) {
-        let len = self.probs.len() + self.singles.len();
+        let len = self.info.len() + self.singles.len();
         (len, Some(len))
     }
 }
